@@ -55,9 +55,12 @@ Section Impl.
   Definition zip_request (s : bytes) : bool * bytes * N :=
     (is_wrapped s, s, zip_max_size + 1).
 
-  (* if len(value) > MAX_SIZE or decompressor.unconsumed_tail: raise ExceededSizeError *)
+  (* try: value = decompressor.decompress(s, MAX_SIZE + 1)
+     except zlib.error: raise DecodeError
+     if len(value) > MAX_SIZE or decompressor.unconsumed_tail: raise ExceededSizeError *)
   Definition zip_post (r : res zans) : res bytes :=
     match r with
+    | Err EZlib => Err (EJose DecodeError)
     | Err e => Err e
     | Ok (value, tail, _eof) =>
         if (zip_max_size <? blen value) || tail then Err exceeded else Ok value
